@@ -16,13 +16,14 @@ def run(ctx):
     if ctx.thorough:
         ctx.tlc_mc(fam, "MuxCache", "MuxCache_MC_bug_utl.cfg", workers=1, expect_violation="Coherent")
         ctx.tlc_mc(fam, "MuxCache", "MuxCache_MC_bug_del.cfg", workers=1, expect_violation="Coherent")
+        ctx.tlc_mc(fam, "MuxCache", "MuxCache_MC_map.cfg", workers=16)
         ctx.tlc_mc(fam, "MuxCache", "MuxCache_MC_big.cfg", workers=16, timeout=3000, heap="16g")
-    pdir, plans = ctx.tlc_plans(fam, "MuxCache_Gen", "MuxCache_Gen.cfg", num=ctx.q(150, 2500), depth=48,
+    pdir, plans = ctx.tlc_plans(fam, "MuxCache_Gen", "MuxCache_Gen.cfg", num=ctx.q(200, 2500), depth=48,
                                 timeout=1200)
     binary = ctx.go_build("c15")
     steps_f, stress_f = ctx.path("steps.ndjson"), ctx.path("stress.ndjson")
     ctx.harness(binary, ["-plans", pdir, "-out", steps_f, "-stress", stress_f, "-seed", ctx.seed,
-                         "-rand", ctx.q(250, 4000), "-nstress", ctx.q(40, 600)],
+                         "-rand", ctx.q(150, 4000), "-nstress", ctx.q(25, 600)],
                 traces=[steps_f, stress_f])
     steps = ctx.load_traces(steps_f)
     stress = ctx.load_traces(stress_f)
